@@ -164,4 +164,82 @@ theorem pickupToTransit_struct (w : WF inst) {s s' : State} {r r' : Rng} {tr : T
     refine ⟨hs3, hmv.conserved (hs.jobsNodup w) hI.cons, hmv.cap ?_ hI.cap⟩
     rw [htb]; exact room_of_id w hroom
 
+theorem transitToOutage_struct (w : WF inst) {s s' : State} {r r' : Rng} {tr : Transition} {t : TransportState}
+    (hI : StructInv inst s) (ht : t ∈ s.transports)
+    (h : handleAgvTransitToOutage orc inst s r tr t = .ok (s', r')) : StructInv inst s' := by
+  obtain ⟨j, cur, pick, drop, tc, outs, bss1, bss2, hj, htj, _, hin, _, _, _, hcase⟩ := transitToOutage_spec h
+  have hs := hI.shape
+  have hparts := ids_parts hs w
+  have htb : storeAt s t.buffer.id = t.buffer.store := storeAt_of_mem (hs.bufNodup w) (mem_allBufs_of_transport ht)
+  have htk : tKey (t.toOutage j.id bss1 outs (s.time + occupiedFor outs) drop) = tKey t := by
+    simp [tKey, TransportState.toOutage]
+  rcases hcase with ⟨mid, ms, _, hms, _, hroom, rfl⟩ | ⟨bid, b, _, hb, _, hroom, rfl⟩
+  · have hmb := mem_allBufs_of_machine hms
+    have hne3 := machine_buf_ids_ne hs w hms
+    have hpre : storeAt s ms.pre.id = ms.pre.store := storeAt_of_mem (hs.bufNodup w) hmb.1
+    have hbuf : storeAt s ms.buffer.id = ms.buffer.store := storeAt_of_mem (hs.bufNodup w) hmb.2.1
+    have hpost : storeAt s ms.post.id = ms.post.store := storeAt_of_mem (hs.bufNodup w) hmb.2.2
+    have hs1 := hs.replaceJob w hj (at_jKey j ms.pre.id)
+    have hs2 := hs1.replaceTransport w (s := s.replaceJob _) ht htk
+    have hmk : mKey (ms.withPre j.id bss2) = mKey ms := by simp [mKey, MachineState.withPre]
+    have hs3 := hs2.replaceMachine w (s := (s.replaceJob _).replaceTransport _) hms hmk
+    have hne : t.buffer.id ≠ ms.pre.id := (hparts.2.2 ms hms t ht).1.symm
+    have hmv : Moved s _ j.id t.buffer.id ms.pre.id := {
+      ne := hne
+      was := hI.cons.stored _ _ (by rw [htb]; exact hin)
+      storeA := by
+        rw [storeAt_replaceMachine hs2 w (s := (s.replaceJob _).replaceTransport _) hms hmk]
+        have h2 := (hparts.2.2 ms hms t ht)
+        simp only [if_neg hne, if_neg h2.2.1.symm, if_neg h2.2.2.symm]
+        rw [storeAt_replaceTransport hs1 w (s := s.replaceJob _) ht htk]
+        simp [TransportState.toOutage, htb]
+      storeB := by
+        rw [storeAt_replaceMachine hs2 w (s := (s.replaceJob _).replaceTransport _) hms hmk]
+        simp [MachineState.withPre, hpre]
+      storeO := by
+        intro i hia hib
+        rw [storeAt_replaceMachine hs2 w (s := (s.replaceJob _).replaceTransport _) hms hmk, if_neg hib]
+        have e : ∀ k, storeAt ((s.replaceJob (j.at ms.pre.id)).replaceTransport
+            (t.toOutage j.id bss1 outs (s.time + occupiedFor outs) drop)) k =
+            if k = t.buffer.id then t.buffer.store.filter (· != j.id) else storeAt s k := by
+          intro k
+          rw [storeAt_replaceTransport hs1 w (s := s.replaceJob _) ht htk]
+          simp [TransportState.toOutage]
+        split
+        · rename_i h2; rw [h2]; simp [MachineState.withPre, hbuf]
+        · split
+          · rename_i h3; rw [h3]; simp [MachineState.withPre, hpost]
+          · rw [e, if_neg hia]
+      locs := by simp [locs_replaceJob] }
+    refine ⟨hs3, hmv.conserved (hs.jobsNodup w) hI.cons, hmv.cap ?_ hI.cap⟩
+    rw [hpre]; exact room_of_id w hroom
+  · have hbs : storeAt s b.id = b.store := storeAt_of_mem (hs.bufNodup w) (mem_allBufs_of_buffer hb)
+    have hs1 := hs.replaceJob w hj (at_jKey j b.id)
+    have hs2 := hs1.replaceTransport w (s := s.replaceJob _) ht htk
+    have hs3 := hs2.replaceBuffer w (s := (s.replaceJob _).replaceTransport _) hb (b' := b.withBack j.id bss2) rfl
+    have hne : t.buffer.id ≠ b.id := (hparts.2.1 b hb t ht).symm
+    have e : ∀ k, storeAt ((s.replaceJob (j.at b.id)).replaceTransport
+        (t.toOutage j.id bss1 outs (s.time + occupiedFor outs) drop)) k =
+        if k = t.buffer.id then t.buffer.store.filter (· != j.id) else storeAt s k := by
+      intro k
+      rw [storeAt_replaceTransport hs1 w (s := s.replaceJob _) ht htk]
+      simp [TransportState.toOutage]
+    have hmv : Moved s _ j.id t.buffer.id b.id := {
+      ne := hne
+      was := hI.cons.stored _ _ (by rw [htb]; exact hin)
+      storeA := by
+        rw [storeAt_replaceBuffer hs2 w (s := (s.replaceJob _).replaceTransport _) hb (b' := b.withBack j.id bss2) rfl,
+          if_neg hne, e]
+        simp [htb]
+      storeB := by
+        rw [storeAt_replaceBuffer hs2 w (s := (s.replaceJob _).replaceTransport _) hb (b' := b.withBack j.id bss2) rfl]
+        simp [hbs]
+      storeO := by
+        intro i hia hib
+        rw [storeAt_replaceBuffer hs2 w (s := (s.replaceJob _).replaceTransport _) hb (b' := b.withBack j.id bss2) rfl,
+          if_neg hib, e, if_neg hia]
+      locs := by simp [locs_replaceJob] }
+    refine ⟨hs3, hmv.conserved (hs.jobsNodup w) hI.cons, hmv.cap ?_ hI.cap⟩
+    rw [hbs]; exact room_of_id w hroom
+
 end JSL
